@@ -9,8 +9,11 @@ import (
 	"hash/fnv"
 	"math/rand/v2"
 	"os"
+	"runtime"
 	"sort"
 	"strconv"
+	"sync/atomic"
+	"time"
 )
 
 // Violation is one refuting observation.
@@ -93,6 +96,27 @@ func (c *Ctx) Begin(input any) {
 	}
 	_, _ = c.journal.WriteAt(append(b, '\n'), 0)
 	_ = c.journal.Truncate(int64(len(b) + 1))
+	atomic.StoreInt64(&lastBegin, time.Now().UnixNano())
+}
+
+var lastBegin int64
+
+// StartCaseWatchdog makes the worker exit (status 98, goroutine dump on stderr) when one journaled case runs
+// longer than the limit, so that a hanging case costs minutes, not the whole batch timeout. The driver then
+// replays the journaled case alone: a reproducible hang is a violation, otherwise the run is inconclusive.
+func StartCaseWatchdog(limit time.Duration) {
+	atomic.StoreInt64(&lastBegin, time.Now().UnixNano())
+	go func() {
+		for {
+			time.Sleep(2 * time.Second)
+			if time.Since(time.Unix(0, atomic.LoadInt64(&lastBegin))) > limit {
+				buf := make([]byte, 1<<20)
+				n := runtime.Stack(buf, true)
+				fmt.Fprintf(os.Stderr, "case watchdog: one case ran longer than %v\n%s\n", limit, buf[:n])
+				os.Exit(98)
+			}
+		}
+	}()
 }
 
 // Eval counts n executed cases.
